@@ -342,7 +342,7 @@ def stage(scratch, tier, log):
             obs.append(Obligation(n, "verus/z3", DISCHARGED if nver > 0 else UNDECIDED, secs / len(decl), functions=[f], kind="complete",
                                   checks=max(1, nver // len(decl)),
                                   detail="all sizes; real body after rewrites R1-R6 (vlib/tierc_kernel.py); invariants derived from the text"))
-    if any(o.status == UNDECIDED for o in obs):
+    if any(o.status in (UNDECIDED, FAILED) for o in obs):
         _refute_natively(scratch, obs, log)
     return obs
 
@@ -483,7 +483,7 @@ def length_stage(scratch, tier, log):
                        "window.iter().enumerate().take(%s); no other length-changing use of %s" % (tot, tot, tot, y))
     except rp.ParseError as ex:
         ob("SINC.make_sincs.head_length.extraction", UNDECIDED, "make_sincs", str(ex))
-    if any(o.status == UNDECIDED for o in obs):
+    if any(o.status in (UNDECIDED, FAILED) for o in obs):
         _refute_natively(scratch, obs, log)
     return obs
 
@@ -504,6 +504,8 @@ fn main() {
             for factor in [1usize, 2, 3, 5, 8, 16, 33, 129] {
                 n_cfg += 1;
                 let wf = *wf;
+                // printed before the attempt: an abort (std's unsafe-precondition check) cannot be caught, the last TRY line names it
+                println!("TRY sinc_len={} oversampling_factor={} window_index={}", len, factor, wi);
                 let r = std::panic::catch_unwind(move || {
                     let it = ScalarInterpolator::<f64>::new(len, factor, 0.9, wf);
                     if it.len() != len || it.nbr_sincs() != factor { return Err("len()/nbr_sincs() differ from the constructor arguments".to_string()); }
@@ -534,8 +536,22 @@ def _refute_natively(scratch, obs, log):
     rc, out = native.run_program(scratch, "kernel_len", REFUTER_MAIN, timeout=900)
     secs = time.time() - t0
     m = re.search(r"^REFUTED (.*)$", out, re.M)
+    tries = re.findall(r"^TRY (.*)$", out, re.M)
+    built = bool(tries)
+    if not m and built and rc not in (0, 1) and "NOT-REFUTED" not in out:
+        # the process died inside a configuration (abort from an unsafe-precondition check, segfault)
+        m = re.match(r"(.*)", "%s : process terminated abnormally (exit status %s) %s" % (
+            tries[-1], rc, " ".join(l for l in out.splitlines() if "unsafe precondition" in l or "panicked" in l)[:300]))
     log.append("tierc_kernel refuter: rc=%s %.1fs %s" % (rc, secs, (m.group(0) if m else out[-200:])))
-    if rc == 1 and m:
+    if m and rc != 0:
+        for o in obs:
+            if o.status == FAILED and o.counterexample is None:
+                # a failed verification condition gets the refuter's failing configuration as its replayed input
+                o.counterexample = {"configuration": m.group(1)}
+                o.replayed = True
+                o.replay_text = "reproduced natively (debug build of the snapshot, public API):\n" + "\n".join(
+                    l for l in out.splitlines() if not l.startswith("TRY "))[-1500:] + "\n--- program ---\n" + REFUTER_MAIN
+                o.detail += " -- failing input from the concrete refuter: " + m.group(1)
         for o in obs:
             if o.status == UNDECIDED:
                 o.status = FAILED
@@ -546,8 +562,12 @@ def _refute_natively(scratch, obs, log):
                             "fails for " + m.group(1)
                 o.counterexample = {"configuration": m.group(1)}
                 o.replayed = True
-                o.replay_text = "reproduced natively (debug build of the snapshot, public API):\n" + out[-1500:] + "\n--- program ---\n" + REFUTER_MAIN
+                o.replay_text = "reproduced natively (debug build of the snapshot, public API):\n" + "\n".join(
+                    l for l in out.splitlines() if not l.startswith("TRY "))[-1500:] + "\n--- program ---\n" + REFUTER_MAIN
     else:
         for o in obs:
             if o.status == UNDECIDED:
                 o.detail += " -- concrete refuter found no failing configuration (%s)" % (out.strip().splitlines()[-1][:120] if out.strip() else "no output")
+        for o in obs:
+            if o.status == FAILED and o.counterexample is None:
+                o.detail += " -- concrete refuter (816 small configurations) did not reproduce it"
